@@ -278,6 +278,57 @@ theorem lifetime_bounded_cex : ¬ lifetime_bounded_full := by
   simp only at h
   omega
 
+/-- **A batch token never carries a use limit**: whatever the request parameters and the role say (also a role whose
+token type defaults to batch, also when `explicit_max_ttl` or `period` are sent along as 0), a created batch token has
+`num_uses = 0` — the create endpoints refuse the other combinations. (Batch tokens are not stored; a use limit on one
+would be reported and never enforced: finding F85, repaired; cf. `C19.limit_needs_counted_uses`.) -/
+theorem batch_token_has_no_use_limit (env : Env) (par : Parent) (ep : Endpoint) (rq : Req) (t : Created)
+    (h : createMid env par ep rq = .ok t) (hb : t.batch = true) : t.numUses = 0 := by
+  unfold createMid at h
+  simp only at h
+  split at h
+  · contradiction
+  · split at h
+    · contradiction
+    · rename_i batch hbo
+      split at h
+      · contradiction
+      · split at h
+        · contradiction
+        · split at h
+          · contradiction
+          · rename_i hnu
+            split at h
+            · contradiction
+            · split at h
+              · contradiction
+              · split at h
+                · contradiction
+                · rename_i X hX
+                  obtain ⟨orphan, m, ttl, _, _, _, _, _, _, _, _, ht⟩ := createTail_ok h
+                  subst ht
+                  simp only at hb ⊢
+                  subst hb
+                  cases hr : endpointRole ep with
+                  | some r =>
+                    simp only [hr, Option.isSome_some, Bool.true_and, Bool.and_eq_true, bne_iff_ne, ne_eq, not_and,
+                      Decidable.not_not] at hnu
+                    simpa [hr] using hnu
+                  | none =>
+                    -- no role: the guard of the type switch has refused a non-zero `num_uses`
+                    simp only [batchOf, typeStrOf, hr] at hbo
+                    simp only [numUsesOf]
+                    split at hbo <;> try (cases hbo)
+                    split at hbo
+                    · cases hbo
+                    · rename_i hg
+                      by_cases hz : rq.numUses = 0
+                      · exact hz
+                      · exfalso
+                        unfold batchGuard at hg
+                        cases he : rq.emax <;> simp [he, batchGuard.batchGuardRest, hz] at hg
+                        split at hg <;> cases hg
+
 /-- **Root tokens are never created from a parent namespace** (after the repair of F33: the guard tests the resolved,
 sanitised policy list — the one stored on the token — instead of the raw request). For every parent, capability set,
 endpoint, role and spelling of the request: a token created in a namespace other than its parent's never holds
